@@ -123,7 +123,9 @@ func (r *revisionSyncer) SyncReadRevision() error {
 		klog.Errorf("sync read revision failed %v", err)
 		return fmt.Errorf("get revision from leader failed %v", err)
 	}
+	verifPoint("sync.beforeSet", currentRevision)
 	r.backend.SetCurrentRevision(currentRevision)
+	verifPoint("sync.afterSet", currentRevision)
 	return nil
 }
 
